@@ -206,7 +206,7 @@ def run(cx):
         cx.ob('EXPR', 'compute_patch_indices:both-orientations', len(gets) == 2 and len(fw) == 1 and len(bw) == 1 and okpop,
               'every popped edge (v0,v1) is looked up as (v0,v1) AND as (v1,v0)', where=b.file, found='; '.join(show(g)[:120] for g in gets))
         # faces added to a patch: each growth region pushes the three edges of the SAME face
-        pushes = [(s, cx.arg(s, 1)) for s in b.calls('Vec::push')]
+        pushes = cx.push_events(b)          # direct pushes and pushes made by a helper that is handed the queue
         edgepushes = []
         for s, d in pushes:
             e = match('(agg tuple (0 (index (index (call *Mesh::faces (param mesh)) $f) $i)) (1 (index (index (call *Mesh::faces (param mesh)) $f) $j)))', d)
